@@ -7,6 +7,7 @@ from typing import Dict, List, Optional, Set, Tuple
 
 from ..core import AnalysisError, RuleSpec
 from ..pymodel import call_name
+from .. import astq
 from . import c19
 
 EXPLANATION = (
@@ -27,57 +28,81 @@ ASSUMPTIONS = ["regex backtracking time and recursion depth are run-time quantit
 
 
 def r1_containment(ctx, rep):
+    """Decided on the event trace of Project.__init__ with its own helper methods inlined: both parse calls run inside
+    a per-file try whose handler catches Exception, reports the file, re-raises only without dbg and goes on."""
     py = ctx.py
     fn = py.func("Project.__init__")
-    tries = [n for n in ast.walk(fn) if isinstance(n, ast.Try)]
-    if not tries:
-        raise AnalysisError("Project.__init__: per-file try not found")
-    t = tries[0]
-    body = ast.unparse(ast.Module(body=t.body, type_ignores=[]))
-    ok = "self._fortran_file(" in body and "GenericSource(" in body
+    res0 = astq.class_method_resolver(py, "Project", "fortran_project")
+
+    def res(c):
+        # the parse itself is the boundary: do not look inside _fortran_file
+        if call_name(c).endswith("_fortran_file"):
+            return None
+        return res0(c)
+    ev = astq.trace(fn, res, max_depth=2)
+    parses = [e for e in ev if e.kind == "call" and (call_name(e.node).endswith("_fortran_file") or call_name(e.node) == "GenericSource")]
+    if len(parses) < 2:
+        raise AnalysisError("Project.__init__: the two parse calls (_fortran_file, GenericSource) were not found")
+    guarded = [[p for p in e.protected if p[0] == "try" and "Exception" in p[1]] for e in parses]
+    ok = all(guarded)
     rep.ob("per-file try covers both parse branches", ok,
            "Fortran and extra-filetype parsing are both inside the try" if ok else
-           "a parse branch is outside the per-file try", py.nloc(t))
-    # the try sits inside the loop over files
-    p = t
-    inloop = False
-    while p is not fn:
-        p = py.parents[p]
-        if isinstance(p, ast.For):
-            inloop = True
+           "a parse branch is outside the per-file try", py.nloc(parses[0].node))
+    tries = {id(g[-1][2]): g[-1][2] for g in guarded if g}
+    if not tries:
+        rep.ob("try is inside the per-file loop", False, "", py.nloc(fn))
+        return
+    t = list(tries.values())[0]
+    inloop = all(e.loops for e in parses)
     rep.ob("try is inside the per-file loop", inloop, "", py.nloc(t))
-    hs = t.handlers
-    ok = len(hs) == 1 and hs[0].type is not None and ast.unparse(hs[0].type) == "Exception"
+    hs = [h for h in t.handlers if "Exception" in astq.handler_types(h) or "BaseException" in astq.handler_types(h)]
+    ok = len(hs) == 1
     rep.ob("handler catches Exception", ok, "any parsing error is contained" if ok else
-           f"handler type is {ast.unparse(hs[0].type) if hs and hs[0].type else 'bare/other'}", py.nloc(hs[0]) if hs else py.nloc(t))
+           f"handler types are {[astq.handler_types(h) for h in t.handlers]}", py.nloc(t))
+    if not hs:
+        return
     h = hs[0]
-    ht = ast.unparse(h)
-    first = h.body[0]
-    ok = isinstance(first, ast.If) and ast.unparse(first.test) == "not settings.dbg" and \
-        any(isinstance(x, ast.Raise) for x in first.body)
-    rep.ob("re-raise only when dbg is off", ok, "", py.nloc(first))
-    warns = [c for c in py.walk_calls(h) if call_name(c) == "warn"]
-    ok = bool(warns) and "relative_path" in ast.unparse(warns[0])
+    # events of the handler body (helpers inlined)
+    hev = astq.trace_block(h.body, fn, res0)
+    raises = [e for e in hev if e.kind == "raise"]
+    ok = bool(raises) and all(any(re.fullmatch(r"not (\w+\.)*dbg", c) for c in e.cond_texts()) for e in raises)
+    rep.ob("re-raise only when dbg is off", ok, "", py.nloc(h))
+    warns = [e for e in hev if e.kind == "call" and call_name(e.node).split(".")[-1] in ("warn", "warning", "print")]
+    names_file = False
+    for w in warns:
+        txt = w.text()
+        names_file = names_file or "relative_path" in txt or "filename" in txt
+        # or through an inlined message helper
+    if not names_file:
+        names_file = any(e.kind in ("assign", "return") and e.value is not None and ("relative_path" in e.text(e.value) or "filename" in e.text(e.value))
+                         for e in hev if e.depth > 0)
+    ok = bool(warns) and names_file
     rep.ob("diagnostic names the file", ok, "the warning interpolates the file's path" if ok else
-           "the warning no longer names the rejected file", py.nloc(warns[0]) if warns else py.nloc(h))
-    ok = isinstance(h.body[-1], ast.Continue)
-    rep.ob("handler continues with the next file", ok, "", py.nloc(h))
-    # the handler itself must not raise: e.args[k] only under a length test
-    for sub in ast.walk(h):
-        if isinstance(sub, ast.Subscript) and ast.unparse(sub.value).endswith(".args") and isinstance(sub.slice, ast.Constant):
-            p = sub
-            guarded = False
-            while p is not h:
-                p = py.parents[p]
-                if isinstance(p, ast.IfExp) and "len(" in ast.unparse(p.test) and ".args" in ast.unparse(p.test):
-                    guarded = True
-                if isinstance(p, ast.If) and "args" in ast.unparse(p.test):
-                    guarded = True
-            rep.ob(f"handler reads {ast.unparse(sub)} only when it exists", guarded,
-                   "guarded by a length test" if guarded else
-                   f"`{ast.unparse(sub)}` is evaluated unconditionally inside the handler: an exception raised without "
-                   f"arguments (NotImplementedError(), StopIteration()) makes the handler itself fail with IndexError and the "
-                   f"whole run aborts", py.nloc(sub))
+           "the warning no longer names the rejected file", py.nloc(warns[0].node) if warns else py.nloc(h))
+    # after the handler the loop goes on: no unconditional return/break/raise on the dbg path
+    leaves = [e for e in hev if (e.kind == "return" and e.depth == 0) or (e.kind == "jump" and isinstance(e.node, ast.Break))
+              or (e.kind == "raise" and not any("dbg" in c for c in e.cond_texts()))]
+    rep.ob("handler continues with the next file", not leaves,
+           "" if not leaves else "the handler leaves the per-file loop: files after the rejected one are not parsed", py.nloc(h))
+    # the handler itself must not raise: e.args[k] only under a length/truthiness test of args
+    for hostfn, root in [(fn, h)] + [(x.fn, x.fn) for x in hev if x.kind == "inline" for x in [x]][:0]:
+        pass
+    hosts = [h] + list({id(e.fn): e.fn for e in hev if e.depth > 0}.values())
+    for host in hosts:
+        hpar = astq.parents_of(host)
+        for sub in ast.walk(host):
+            if isinstance(sub, ast.Subscript) and ast.unparse(sub.value).endswith(".args") and isinstance(sub.slice, ast.Constant):
+                p = sub
+                guarded2 = False
+                while p in hpar:
+                    p = hpar[p]
+                    if isinstance(p, (ast.IfExp, ast.If)) and ".args" in ast.unparse(p.test):
+                        guarded2 = True
+                rep.ob(f"handler reads {ast.unparse(sub)} only when it exists", guarded2,
+                       "guarded by a test of args" if guarded2 else
+                       f"`{ast.unparse(sub)}` is evaluated unconditionally inside the handler: an exception raised without "
+                       f"arguments (NotImplementedError(), StopIteration()) makes the handler itself fail with IndexError and the "
+                       f"whole run aborts", py.nloc(sub))
     # defaults
     ps = py.cls("ProjectSettings")
     dbg = ps.class_attrs.get("dbg")
@@ -207,18 +232,28 @@ def r2_no_cross_file_state(ctx, rep):
 
 def r3_nesting_errors_raise(ctx, rep):
     py, cs = ctx.py, ctx.cascade
-    after = [s for s in cs.after_loop if not (isinstance(s, ast.Expr) and isinstance(s.value, ast.Constant))]
-    ok = len(after) == 1 and isinstance(after[0], ast.If) and \
-        ast.unparse(after[0].test) == "not isinstance(self, FortranSourceFile)" and \
-        len(after[0].body) == 1 and isinstance(after[0].body[0], ast.Raise)
+    aev = astq.trace_block(cs.after_loop, cs.fn) if cs.after_loop else []
+    raises = [e for e in aev if e.kind == "raise"]
+    ok = bool(raises) and any(
+        all(re.fullmatch(r"not \(?isinstance\(self, FortranSourceFile\)\)?", c) for c in e.cond_texts()) and e.cond_texts()
+        for e in raises)
     rep.ob("end of input inside a container raises", ok,
            "`if not isinstance(self, FortranSourceFile): raise ...` follows the dispatch loop" if ok else
            "reaching the end of the file while still nested no longer raises unconditionally (e.g. it goes "
            "through print_error, which only prints under the default dbg=True): a truncated file is reported "
-           "but not rejected and its half-built entities enter the project", py.nloc(after[0]) if after else py.nloc(cs.fn))
+           "but not rejected and its half-built entities enter the project", py.nloc(raises[0].node) if raises else py.nloc(cs.fn))
     pe = py.func("FortranContainer.print_error")
-    t = ast.unparse(pe)
-    ok = "raise ValueError(message)" in t and "if self.settings.dbg" in t and "self.filename" in t and "{line}" in t
+    pev = astq.trace(pe)
+    line_p = pe.args.args[1].arg
+    praise = [e for e in pev if e.kind == "raise" and e.value is not None and "ValueError" in ast.unparse(e.value)]
+    ok = False
+    for e in praise:
+        negs = [c for c in e.cond_texts() if c.startswith("not ")]
+        cond_ok = any("dbg" in c for c in negs) and not any("dbg" in c and not c.startswith("not ") for c in e.cond_texts())
+        msg = e.value.args[0] if isinstance(e.value, ast.Call) and e.value.args else None
+        names = msg is not None and astq.mentions(msg, "self.filename", pe) and any(
+            isinstance(n, ast.Name) and n.id == line_p for x in astq.expand_locals(msg, pe) for n in ast.walk(x))
+        ok = ok or (cond_ok and bool(names))
     rep.ob("print_error names the file and the line, raises unless dbg/force", ok, "", py.nloc(pe))
     # every print_error call passes `line`
     n = 0
@@ -226,14 +261,18 @@ def r3_nesting_errors_raise(ctx, rep):
         for c in py.walk_calls(ast.Module(body=a.body, type_ignores=[])):
             if call_name(c) == "self.print_error":
                 n += 1
-                ok = bool(c.args) and ast.unparse(c.args[0]) == "line"
+                ok = bool(c.args) and ast.unparse(c.args[0]) == cs.line_var
                 rep.ob(f"print_error in arm {a.name}: {ast.unparse(c.args[1])[:40] if len(c.args) > 1 else ''}", ok,
                        "passes the offending line", py.nloc(c), nontrivial=False)
     e = cs.arm_by_regex("END_RE")
-    t = ast.unparse(ast.Module(body=e.body, type_ignores=[]))
-    ok = "isinstance(self, FortranSourceFile)" in t and "END statement outside of any nesting" in t
-    rep.ob("END at file level is an error", ok, "", py.nloc(e.test))
-    ok = re.search(r"elif blocklevel == 0:\s+self\._cleanup\(\)\s+return", t) is not None
+    eev = astq.trace_block(e.body, cs.fn)
+    errs = [x for x in eev if x.kind == "call" and call_name(x.node) == "self.print_error"
+            and any("isinstance(self, FortranSourceFile)" in c and not c.startswith("not") for c in x.cond_texts())]
+    rep.ob("END at file level is an error", bool(errs), "", py.nloc(e.test))
+    rets = [x for x in eev if x.kind == "return"]
+    cl = [x for x in eev if x.kind == "call" and call_name(x.node) == "self._cleanup"]
+    ok = bool(rets) and bool(cl) and all(any(re.search(r"blocklevel == 0|not blocklevel", c) and not c.startswith("not (") for c in x.cond_texts())
+                                         for x in rets + cl)
     rep.ob("END closes the container only at block level 0", ok, "", py.nloc(e.test))
     c = cs.arm_by_literal("contains")
     ok = len(c.errors) == 2
@@ -243,6 +282,8 @@ def r3_nesting_errors_raise(ctx, rep):
 def r4_cursor_progress(ctx, rep):
     py = ctx.py
     rx = ctx.rx
+    if "sourceform.QUOTES_RE" not in ctx.regexes:
+        raise AnalysisError("sourceform.QUOTES_RE is not a constant regular expression any more")
     pat, flags, node, mod = ctx.regexes["sourceform.QUOTES_RE"]
     L = rx.full(pat, flags)
     ok = not rx.nullable(L)
